@@ -930,6 +930,8 @@ class Fxp():
                     new_val = new_val.astype(np.int64 if self.signed else np.uint64)
             
             if index is not None:
+                if isinstance(new_val, np.ndarray) and new_val.dtype == object and new_val.ndim == 0:
+                    new_val = new_val.item()    # (a python integer, not a 0-dimensional array, becomes the element of an object array)
                 if isinstance(self.val, np.ndarray):
                     self.val[index] = new_val
                 else:
